@@ -918,12 +918,10 @@ def _mc_native(full):
             tags[id(r)] = 'clipped'
             trace.append(('clip', tag(a), tag(b), 'clipped'))
             return r
-        mod.clip_native_to_wngrid = clip
-        try:
+        from pyvc.unit import patched
+        with patched(real, clip):
             f = m.model_full_contrib if full else m.model_contrib
             grid, res = f(wngrid=obs, cutoff_grid=p['cutoff_grid'])
-        finally:
-            mod.clip_native_to_wngrid = real
         same = m.contribution_list is full_list and [x.k for x in m.contribution_list] == list(range(len(comps)))
         after = dict(p, self=dict(p['self'], contribution_list='same-object-same-members' if same else 'changed'))
         after['__trace__'] = trace
@@ -1092,11 +1090,9 @@ def _model_native(c, p):
         tags[id(r)] = 'clipped'
         trace.append(('clip', tag(a), tag(b), 'clipped'))
         return r
-    mod.clip_native_to_wngrid = clip
-    try:
+    from pyvc.unit import patched
+    with patched(real, clip):
         g, a, t, x = m.model(wngrid=obs, cutoff_grid=p['cutoff_grid'])
-    finally:
-        mod.clip_native_to_wngrid = real
     return (tag(g), a, t, x), dict(p, __trace__=trace)
 
 
